@@ -190,3 +190,58 @@ func (w *World) selfTestCase(search *ssa.Function, solver *Solver, given interfa
 	}
 	return ""
 }
+
+// SymbolicSelfTest runs the H_ST_* harnesses and compares with their known
+// outcomes; it guards against engine regressions that would make checks
+// vacuous (e.g. every path wrongly infeasible).
+func (w *World) SymbolicSelfTest() []string {
+	var bad []string
+	exp := func(h string, check func(r *HarnessReport) string) {
+		r := w.Explore(h, ExploreOpts{Workers: 4, Tier: "quick"})
+		if len(r.InternalErrs) > 0 {
+			bad = append(bad, h+": internal error: "+firstLines(r.InternalErrs[0], 3))
+			return
+		}
+		if m := check(r); m != "" {
+			bad = append(bad, h+": "+m+" ("+r.Summary()+")")
+		}
+	}
+	exp("H_ST_twin", func(r *HarnessReport) string {
+		if len(r.Findings) != 1 {
+			return "reachability twin not violated exactly once"
+		}
+		for _, d := range r.Findings[0].Draws {
+			if d["name"] == "x" && d["v"] != "6" {
+				return "wrong model for twin"
+			}
+		}
+		return ""
+	})
+	exp("H_ST_branches", func(r *HarnessReport) string {
+		if r.Completed != 3 || r.Reach["end"] != 3 || len(r.Findings) != 0 {
+			return "expected 3 completed paths and no finding"
+		}
+		return ""
+	})
+	exp("H_ST_doc", func(r *HarnessReport) string {
+		for _, k := range []string{"nil", "bool", "string", "array", "object", "number"} {
+			if r.Reach[k] == 0 {
+				return "document type " + k + " not reached"
+			}
+		}
+		return ""
+	})
+	exp("H_ST_wrap", func(r *HarnessReport) string {
+		if len(r.Findings) != 0 || r.Completed < 3 || r.Inconclusive > 0 {
+			return "integer arithmetic model"
+		}
+		return ""
+	})
+	exp("H_ST_strings", func(r *HarnessReport) string {
+		if len(r.Findings) != 0 || r.Completed < 2 {
+			return "string / map model"
+		}
+		return ""
+	})
+	return bad
+}
